@@ -36,6 +36,8 @@ func runC03(l *core.Ledger) {
 	l.Rule("C03-F4", "NodeStream: every path from the go-handler statement to the next RecvMsg acquires the per-connection mutex; one server RecvMsg site, in NodeStream's own goroutine")
 	l.Rule("C03-F5", "exactly one handler start per loop iteration, given the message that this iteration's RecvMsg filled, which is freshly allocated per iteration")
 	l.Rule("C03-F7", "the queued request carries the caller's own context parameter and message (C06-P1 re-run): the library never cancels a queued request on the caller's behalf")
+	l.Rule("C03-F8", "no node is listed twice in a configuration (C14-G2 re-run: appended only if its id was not seen in this call): a node listed twice is handed every request twice and its server starts the handler twice")
+	l.Rule("C03-F9", "every handler the server loop starts itself (a library function, not a registered handler) releases the connection on every path: otherwise the loop waits for a release that never comes and the server handles nothing more on that connection")
 	l.Rule("C03-F6", "bijection between descriptor methods, registered handler names and stub Method strings (C17-B1 re-run)")
 
 	eps := findEntryPoints(l, r, "C03-F1")
@@ -66,6 +68,12 @@ func runC03(l *core.Ledger) {
 
 	c03F2F3(l, r)
 	c03Server(l, r)
+	// F8: a node that is listed twice in a configuration is handed every request twice
+	l.With(map[string]string{"C14-G2": "C03-F8"}, func() {
+		for _, c := range findCtors(l, r) {
+			c14Ctor(l, r, c)
+		}
+	})
 	c03F6(l)
 	// F7: what is queued is the caller's own request: its context is the
 	// caller's context parameter itself (a context the library derives and
@@ -362,6 +370,48 @@ func c03Server(l *core.Ledger, r *rt) {
 	l.OK("C03-F4", "who-may-call/server-RecvMsg", sl.recv.Pos(), "single read site in "+key)
 	c03F4(l, sl, "C03-F4")
 	c03F5(l, sl)
+	c03F9(l, sl, "C03-F9")
+}
+
+// c03F9 (shared with C04): the loop waits for a release after every handler it
+// starts. Registered handlers are generated code (C04-H3: defer ctx.Release()).
+// A handler that the library itself supplies - a function of this repository
+// that reaches the go statement as a value - must release on every path too.
+func c03F9(l *core.Ledger, sl *serverLoop, rule string) {
+	n := 0
+	for _, g := range sl.goH {
+		if g.Call.IsInvoke() {
+			continue
+		}
+		for _, o := range sx.Origins(g.Call.Value) {
+			f, isF := o.V.(*ssa.Function)
+			if !isF || len(f.Blocks) == 0 || !inRepo(f) || len(f.Params) == 0 {
+				continue
+			}
+			n++
+			ctxParam := f.Params[0]
+			isRelease := func(nd sx.Node) bool {
+				cc := sx.CallOf(nd.Instr())
+				if cc == nil {
+					return false
+				}
+				cs := cc.StaticCallee()
+				if cs == nil || cs.Name() != "Release" || cs.Signature.Recv() == nil || !isNamed(cs.Signature.Recv().Type(), core.RootModule, "ServerCtx") {
+					return false
+				}
+				return len(cc.Args) > 0 && sx.All(sx.Origins(cc.Args[0]), sx.IsParam(ctxParam))
+			}
+			w, must := sx.MustPassThrough(sx.Entry(f), isRelease, sx.IsReturn)
+			pos := f.Pos()
+			if !must && w.B != nil {
+				pos = sx.PosOf(w.Instr())
+			}
+			l.Check(must, rule, fnKey(sl.fn)+"/library-handler/"+fnKey(f), pos, "releases (ctx.Release, directly or deferred) on every path", "the server loop starts the library function "+fnKey(f)+" as a handler and then waits for its release, but the function can return without calling ctx.Release(): the loop never reads the next request and the server handles nothing more on this connection")
+		}
+	}
+	if n == 0 {
+		l.OK(rule, fnKey(sl.fn)+"/library-handler", sl.fn.Pos(), "the loop starts registered handlers only")
+	}
 }
 
 // c03F5 is shared with C04-H5: a handler that released early still reads the
